@@ -46,6 +46,8 @@ def head_type(t):
     """`&'a mut Foo<Bar>` -> Foo ; `std::cell::Ref<'_, X>` -> Ref"""
     t = t.strip()
     t = re.sub(r"^&('[a-z_]+ )?(mut )?", "", t)
+    if t.startswith("["):
+        return "[T]"
     t = re.sub(r"<.*$", "", t, flags=re.S)
     return t.split("::")[-1].strip()
 
@@ -339,6 +341,14 @@ class Program:
             return Atom([ord(ch) for ch in bytes(int(h, 16) for h in hx).decode("utf-8")])
         if "promoted[" in c or c in self.fns:
             return self.eval_const_fn(m, c)
+        if strip_generics(c) in self.fns and getattr(self.fns[strip_generics(c)], "is_const", False):
+            return self.eval_const_fn(m, strip_generics(c))
+        # named constants of the crate (matched on the last path segment)
+        last = strip_generics(c).split("::")[-1].strip()
+        if re.match(r"^[A-Z][A-Z0-9_]+$", last):
+            cands = [f for n, f in self.fns.items() if getattr(f, "is_const", False) and n.split("::")[-1] == last and "promoted" not in n]
+            if len(cands) == 1:
+                return self.eval_const_fn(m, cands[0].name)
         # ZST fn items / unit structs / associated consts
         key = norm_callee(c)
         f = self.fns.get(c) or self.by_const(key)
@@ -379,6 +389,10 @@ class Program:
             f = self.fns[cands[0]]
         if f.name in self.statics:
             return self.statics[f.name]
+        if getattr(f, "const_expr", None) is not None:
+            v = self.const(m, f.const_expr)
+            self.statics[f.name] = v
+            return v
         sub = Machine(self, [])
         v = sub.run_fn(f, [])
         self.statics[f.name] = v
